@@ -10,7 +10,7 @@
 //   R <n> <bytes align>*n                       request list of the X-macro (E, I), empty otherwise
 //   S <parena> <pstack> <maxuse_arena> <ncon> <nefc> <nisland> <nefcp> <p..> <nislp> <p..>      before
 //   O <kind> <ret> <parena> <pstack> <maxuse_arena> <ncon> <nefc> <nisland> <p..efc> <p..isl> <nwarn> <wkind> <winfo> <nstale>
-//       nstale = contacts with efc_address >= nefc
+//       nstale = contacts with efc_address >= nefc; then <allocations violating the oracle of c20_wrap.h> <first violation>
 //       kind 0 = returned, 1 = mju_error raised
 //   or  X <signal>   when the process died
 #include <inttypes.h>
@@ -19,6 +19,7 @@
 #include <stdio.h>
 #include <stdlib.h>
 #include <string.h>
+#include <sys/mman.h>
 #include <sys/types.h>
 #include <sys/wait.h>
 #include <unistd.h>
@@ -27,6 +28,7 @@
 #include "engine/engine_core_constraint.c"
 #include "engine/engine_island.c"
 #include "c19_scene.h"
+#include "c20_wrap.h"
 
 static jmp_buf jb;
 static void on_error(const char* msg) { (void)msg; longjmp(jb, 1); }
@@ -98,7 +100,7 @@ static void print_state(const mjModel* m, const mjData* d) {
 // the scene is built and forwarded once in the parent; every test works on its own copy-on-write copy
 static mjModel* gm; static mjData* gd;
 static int one_test(char site, long long avail) {
-  mjModel* m = gm; mjData* d = gd;
+  mjModel* m = gm; mjData* d = mj_copyData(NULL, gm, gd);   // every test starts from the forwarded state
   fprintf(vout, "K %zu %zu %zu %zu %" PRIuPTR " %lld\n", sizeof(mjContact), (size_t)_Alignof(mjContact), sizeof(mjcPair),
           (size_t)_Alignof(mjcPair), P(d->arena), (long long)d->narena);
   // leave exactly `avail` free bytes above the arena pointer the site starts from
@@ -108,6 +110,7 @@ static int one_test(char site, long long avail) {
   print_reqs(m, d, site);
   fprintf(vout, "S"); print_state(m, d); print_ptrs(m, d); fprintf(vout, "\n");
   flush_out();   // the lines above survive a crash inside the site
+  w_nviol = 0;
   int w0[mjNWARNING];
   for (int k = 0; k < mjNWARNING; k++) w0[k] = d->warning[k].number;
   volatile int ret = 0, kind = 0;
@@ -147,7 +150,9 @@ static int one_test(char site, long long avail) {
   // contacts whose efc_address does not address a row of the current constraint set
   int nstale = 0;
   for (int i = 0; i < d->ncon; i++) if (d->contact[i].efc_address >= d->nefc) nstale++;
-  fprintf(vout, " %d %d %lld %d\n", nw, wk, wi, nstale);
+  fprintf(vout, " %d %d %lld %d %ld %lld %lld %lld %lld %lld %lld\n", nw, wk, wi, nstale,
+          (long)w_nviol, w_first[0], w_first[1], w_first[2], w_first[3], w_first[4], w_first[5]);
+  mj_deleteData(d);
   return 0;
 }
 
@@ -160,20 +165,34 @@ int main(int argc, char** argv) {
   if (!gm) { fprintf(stderr, "compile: %s\n", err); return 2; }
   gd = mj_makeData(gm);
   mj_forward(gm, gd);
-  char site[8]; long long avail;
-  while (scanf("%7s %lld", site, &avail) == 2) {
+  // tests run in batches of up to 32 per child process; the child counts finished tests in shared memory so that
+  // after a crash the parent prints X for the crashed test and resumes behind it
+  volatile long* done = mmap(NULL, sizeof(long), PROT_READ | PROT_WRITE, MAP_SHARED | MAP_ANONYMOUS, -1, 0);
+  if (done == MAP_FAILED) return 2;
+  static char sites[1 << 16]; static long long avails[1 << 16]; long n = 0;
+  char site[8];
+  while (n < (1 << 16) && scanf("%7s %lld", site, &avails[n]) == 2) { sites[n] = site[0]; n++; }
+  *done = 0;
+  while (*done < n) {
+    long first = *done;
     fflush(stdout);
     pid_t pid = fork();
     if (pid < 0) return 2;
     if (pid == 0) {
-      vout = open_memstream(&vbuf, &vlen);
-      int rc = one_test(site[0], avail);
-      flush_out();
-      _exit(rc);
+      for (long i = first; i < n && i < first + 32; i++) {
+        vbuf = NULL; vlen = 0; vflushed = 0;
+        vout = open_memstream(&vbuf, &vlen);
+        int rc = one_test(sites[i], avails[i]);
+        flush_out();
+        fclose(vout);
+        if (rc) _exit(rc);
+        (*done)++;
+      }
+      _exit(0);
     }
     int status = 0;
     waitpid(pid, &status, 0);
-    if (WIFSIGNALED(status)) printf("X %d\n", WTERMSIG(status));
+    if (WIFSIGNALED(status)) { printf("X %d\n", WTERMSIG(status)); (*done)++; }
     else if (WEXITSTATUS(status)) return WEXITSTATUS(status);
   }
   return 0;
